@@ -164,14 +164,14 @@ theorem kcl_remaining_node (kind : Kind) (s : K) (cs : List (Cpt K)) (x : Ix →
   rw [Finset.sum_eq_single_of_mem a ha (fun k _ hk => h k hk)] at tot
   exact tot
 
-theorem volt_congr (x y : Ix → K) (h : ∀ i, i ≠ node 0 → x i = y i) (n : Nat) : volt x n = volt y n := by
+theorem volt_congr_ground (x y : Ix → K) (h : ∀ i, i ≠ node 0 → x i = y i) (n : Nat) : volt x n = volt y n := by
   cases n with
   | zero => rfl
   | succ k => exact h _ (by simp)
 
-theorem laws_congr (kind : Kind) (s : K) (cs : List (Cpt K)) (x y : Ix → K)
+theorem laws_congr_ground (kind : Kind) (s : K) (cs : List (Cpt K)) (x y : Ix → K)
     (h : ∀ i, i ≠ node 0 → x i = y i) : Laws kind s cs x → Laws kind s cs y := by
-  have hv := volt_congr x y h
+  have hv := volt_congr_ground x y h
   have hb : ∀ m, x (br m) = y (br m) := fun m => h _ (by simp)
   have hmd : ∀ coup : List (Nat × K × Option K), mutualDrop s x coup = mutualDrop s y coup := by
     intro coup; simp [mutualDrop, hb]
